@@ -204,10 +204,17 @@ def realize_any(x):
 # format tokens (DESIGN 2.4)
 
 TOKENS = []
+PATH_SERIAL = [0]   # per-path counter for auxiliary variable names (names must repeat identically on every path)
 
 
 def reset_path():
     del TOKENS[:]
+    PATH_SERIAL[0] = 0
+
+
+def path_serial():
+    PATH_SERIAL[0] += 1
+    return PATH_SERIAL[0]
 
 
 def token_for(x):
